@@ -7,10 +7,12 @@ import (
 	"pgregory.net/rapid"
 
 	"github.com/tink-crypto/tink-go/v2/aead/aesgcm"
+	"github.com/tink-crypto/tink-go/v2/key"
 	"github.com/tink-crypto/tink-go/v2/keyset"
 	"github.com/tink-crypto/tink-go/v2/verifharness/internal/detrand"
 	"github.com/tink-crypto/tink-go/v2/verifharness/internal/evid"
 	"github.com/tink-crypto/tink-go/v2/verifharness/internal/gen"
+	"github.com/tink-crypto/tink-go/v2/verifharness/internal/keys"
 	"github.com/tink-crypto/tink-go/v2/verifharness/internal/tk"
 )
 
@@ -36,29 +38,54 @@ func TestNoKeyBytesWhenNotSerializable(t *testing.T) {
 	rapid.Check(t, func(rt *rapid.T) {
 		detrand.Seed(rapid.Uint64().Draw(rt, "entropy"))
 		c := drawHandle(rt, 3, false)
-		ivSize := rapid.SampledFrom([]int{13, 14, 15, 16}).Draw(rt, "iv_size")
-		keySize := rapid.SampledFrom([]int{16, 32}).Draw(rt, "key_size")
-		material := gen.BytesN(rt, "unserializable_key", keySize)
-		for i := range material { // distinct bytes, so that windows of the key are unmistakable
-			material[i] ^= byte(0xC8 + i)
-		}
-		p, err := aesgcm.NewParameters(aesgcm.ParametersOpts{KeySizeInBytes: keySize, IVSizeInBytes: ivSize, TagSizeInBytes: 16, Variant: aesgcm.VariantNoPrefix})
-		if err != nil {
-			rt.Fatalf("aesgcm.NewParameters(iv %d): %v", ivSize, err)
-		}
-		k, err := aesgcm.NewKey(tk.Secret(material), 0, p)
-		if err != nil {
-			rt.Fatalf("aesgcm.NewKey: %v", err)
+		// the member without proto form: AES-GCM with an IV size other than 12, AES-GCM with a tag
+		// size other than 16, RSA-SSA-PSS with salt length 0 (private key from the shared pool)
+		kind := rapid.SampledFrom([]string{"aesgcm-iv", "aesgcm-tag", "rsassapss-salt0"}).Draw(rt, "unserializable_kind")
+		var k key.Key
+		var material [][]byte
+		var what string
+		if kind == "rsassapss-salt0" {
+			var odd *keys.Info
+			for i := 0; i < 40 && odd == nil; i++ {
+				if cand := keys.DrawType(rt, fmt.Sprintf("odd%d", i), "RsaSsaPss"); cand.NoSerialization && !cand.HasID {
+					odd = cand
+				}
+			}
+			if odd == nil {
+				rt.Skip("no RSA-SSA-PSS key with salt length 0 drawn")
+			}
+			k, material, what = odd.Key, odd.Secrets, odd.Desc
+		} else {
+			ivSize, tagSize := 12, 16
+			if kind == "aesgcm-iv" {
+				ivSize = rapid.SampledFrom([]int{13, 14, 15, 16}).Draw(rt, "iv_size")
+			} else {
+				tagSize = rapid.SampledFrom([]int{12, 13, 14, 15}).Draw(rt, "tag_size")
+			}
+			keySize := rapid.SampledFrom([]int{16, 32}).Draw(rt, "key_size")
+			raw := gen.BytesN(rt, "unserializable_key", keySize)
+			for i := range raw { // distinct bytes, so that windows of the key are unmistakable
+				raw[i] ^= byte(0xC8 + i)
+			}
+			p, err := aesgcm.NewParameters(aesgcm.ParametersOpts{KeySizeInBytes: keySize, IVSizeInBytes: ivSize, TagSizeInBytes: tagSize, Variant: aesgcm.VariantNoPrefix})
+			if err != nil {
+				rt.Fatalf("aesgcm.NewParameters(iv %d, tag %d): %v", ivSize, tagSize, err)
+			}
+			gk, err := aesgcm.NewKey(tk.Secret(raw), 0, p)
+			if err != nil {
+				rt.Fatalf("aesgcm.NewKey: %v", err)
+			}
+			k, material, what = gk, [][]byte{raw}, fmt.Sprintf("AES-GCM key %x (IV size %d, tag size %d)", raw, ivSize, tagSize)
 		}
 		m := keyset.NewManagerFromHandle(c.h)
 		if _, err := m.AddKey(k); err != nil {
-			rt.Fatalf("%v\nManager.AddKey(AES-GCM key with IV size %d): %v", c, ivSize, err)
+			rt.Fatalf("%v\nManager.AddKey(%s): %v", c, what, err)
 		}
 		h, err := m.Handle()
 		if err != nil {
 			rt.Fatalf("%v\nManager.Handle(): %v", c, err)
 		}
-		sc := newScanner(append(append([][]byte{}, c.secrets...), material), c.typeURLs())
+		sc := newScanner(append(append([][]byte{}, c.secrets...), material...), c.typeURLs())
 		str, p1 := recovered(func() string { return h.String() })
 		info, p2 := recovered(func() string { return h.KeysetInfo().String() })
 		outputs := []struct{ name, text string }{
@@ -70,16 +97,16 @@ func TestNoKeyBytesWhenNotSerializable(t *testing.T) {
 		}
 		for _, o := range outputs {
 			if hit := sc.find([]byte(o.text)); hit != "" {
-				rt.Fatalf("%v\nplus an AES-GCM key (IV size %d, not serializable) %x\n%s contains key bytes: %s\noutput: %s", c, ivSize, material, o.name, hit, snippet([]byte(o.text), hit))
+				rt.Fatalf("%v\nplus a key without proto form: %s\n%s contains key bytes: %s\noutput: %s", c, what, o.name, hit, snippet([]byte(o.text), hit))
 			}
 		}
 		evid.Add("windows_searched", int64(sc.size()))
-		cls := "unserializable/returns"
+		cls := "unserializable/" + kind + "/returns"
 		if p1 || p2 {
-			cls = "unserializable/panics"
+			cls = "unserializable/" + kind + "/panics"
 		}
-		evid.Case(cls, true, c.fingerprint().B(material).I(int64(ivSize)).Sum(), func() any {
-			return map[string]any{"keyset": c.String(), "string_or_panic": str, "iv_size": ivSize}
+		evid.Case(cls, true, c.fingerprint().S(what).Sum(), func() any {
+			return map[string]any{"keyset": c.String(), "string_or_panic": str, "member_without_proto_form": what}
 		})
 	})
 }
